@@ -615,6 +615,7 @@ impl Service for ScriptedService {
     type Future = future::Ready<Result<Option<Response>, ExceptionCode>>;
 
     fn call(&self, req: Self::Request) -> Self::Future {
+        let req = req.into_owned();
         self.io.with(|s| {
             s.log.push(Logged::Call(format!(
                 "{} {}",
@@ -636,6 +637,27 @@ impl Service for ScriptedService {
     }
 }
 
+/// a service typed on the plain `Request` (it never sees the unit / slave id)
+pub struct PlainService(pub ScriptedService);
+
+impl Service for PlainService {
+    type Request = tokio_modbus::Request<'static>;
+    type Response = Option<Response>;
+    type Exception = ExceptionCode;
+    type Future = future::Ready<Result<Option<Response>, ExceptionCode>>;
+
+    fn call(&self, req: Self::Request) -> Self::Future {
+        let req = req.into_owned();
+        self.0.io.with(|s| s.log.push(Logged::Call(format!("?? {}", request(&req)))));
+        let o = self.0.outcomes.lock().unwrap().pop_front().unwrap_or(Svc::Decline);
+        future::ready(match o {
+            Svc::Reply(r) => Ok(Some(r)),
+            Svc::Exception(e) => Err(e),
+            Svc::Decline => Ok(None),
+        })
+    }
+}
+
 fn srv_op(kind: &str, fields: &[&str]) -> Option<(String, String)> {
     let io = ScriptedIo::new();
     extend(&io, fields)?;
@@ -644,17 +666,14 @@ fn srv_op(kind: &str, fields: &[&str]) -> Option<(String, String)> {
         outcomes: Arc::new(Mutex::new(outcomes.into_iter().collect())),
         io: io.clone(),
     };
-    let d = match kind {
-        "tcp" => drive(
-            &io,
-            tokio_modbus::server::tcp::verif_process(io.clone(), service),
-            None,
-        ),
-        "rtu" => drive(
-            &io,
-            tokio_modbus::server::rtu_over_tcp::verif_process(io.clone(), service),
-            None,
-        ),
+    let plain = field("svcty", fields) == "req";
+    let d = match (kind, plain) {
+        ("tcp", false) => drive(&io, tokio_modbus::server::tcp::verif_process(io.clone(), service), None),
+        ("rtu", false) => drive(&io, tokio_modbus::server::rtu_over_tcp::verif_process(io.clone(), service), None),
+        ("tcp", true) => drive(&io, tokio_modbus::server::tcp::verif_process(io.clone(), PlainService(service)), None),
+        ("rtu", true) => {
+            drive(&io, tokio_modbus::server::rtu_over_tcp::verif_process(io.clone(), PlainService(service)), None)
+        }
         _ => return None,
     };
     let end = match d {
